@@ -703,28 +703,103 @@ theorem dropLeadingComments_spec : ∀ ls : List Line, (∀ l ∈ ls, '\n' ∉ l
         · exact ⟨Or.inr (hmem x hx).1, (hmem x hx).2⟩
     · exact ⟨[], by simp⟩
 
+/-! ### `suppress_sys_path_injection` -/
+
+theorem isInjection_nil : isInjection [] = false := by decide
+
+theorem dropInjections_ne_nil : ∀ ls : List Line, ls ≠ [] → dropInjections ls ≠ []
+  | [], h => absurd rfl h
+  | [l], _ => by
+    rw [dropInjections]; split <;> simp
+  | l :: m :: rest, _ => by
+    rw [dropInjections]
+    split
+    · exact dropInjections_ne_nil (m :: rest) (by simp)
+    · simp
+
+theorem dropInjections_spec : ∀ ls : List Line,
+    (∀ l ∈ dropInjections ls, isInjection l = false) ∧
+    (dropInjections ls).filter (fun l => !l.isEmpty) =
+      (ls.filter fun l => !isInjection l).filter (fun l => !l.isEmpty)
+  | [] => by simp [dropInjections]
+  | [l] => by
+    rw [dropInjections]
+    by_cases h : isInjection l = true
+    · simp [h, isInjection_nil]
+    · simp [h]
+  | l :: m :: rest => by
+    obtain ⟨ih1, ih2⟩ := dropInjections_spec (m :: rest)
+    rw [dropInjections]
+    by_cases h : isInjection l = true
+    · rw [if_pos h]
+      refine ⟨ih1, ?_⟩
+      rw [ih2]
+      simp [List.filter_cons, h]
+    · rw [if_neg h]
+      constructor
+      · intro x hx
+        simp only [List.mem_cons] at hx
+        rcases hx with hx | hx
+        · subst hx; simpa using h
+        · exact ih1 x (by simpa using hx)
+      · have hl : (!isInjection l) = true := by simpa using h
+        rw [List.filter_cons (x := l) (xs := m :: rest), if_pos hl]
+        by_cases he : l.isEmpty = true
+        · rw [List.filter_cons, List.filter_cons (x := l), he]
+          simp only [Bool.not_true, Bool.false_eq_true, if_false]
+          exact ih2
+        · have he' : (!l.isEmpty) = true := by simpa using he
+          rw [List.filter_cons, List.filter_cons (x := l), if_pos he', if_pos he', ih2]
+
+theorem dropInjections_no_nl (ls : List Line) (h : ∀ l ∈ ls, '\n' ∉ l) :
+    ∀ l ∈ dropInjections ls, '\n' ∉ l := by
+  match ls with
+  | [] => simp [dropInjections]
+  | [l] =>
+    rw [dropInjections]; split
+    · simp
+    · simpa using h
+  | l :: m :: rest =>
+    have ih := dropInjections_no_nl (m :: rest) (fun x hx => h x (List.mem_cons_of_mem _ hx))
+    rw [dropInjections]; split
+    · exact ih
+    · intro x hx
+      simp only [List.mem_cons] at hx
+      rcases hx with hx | hx
+      · subst hx; exact h _ (by simp)
+      · exact ih x (by simpa using hx)
+
+theorem injections_spec (t : Text) :
+    (∀ l ∈ splitNl (suppressSysPath t), isInjection l = false) ∧
+    (splitNl (suppressSysPath t)).filter (fun l => !l.isEmpty) =
+      ((splitNl t).filter fun l => !isInjection l).filter (fun l => !l.isEmpty) := by
+  unfold suppressSysPath
+  rw [splitNl_joinNl _ (dropInjections_ne_nil _ (splitNl_ne_nil t))
+    (dropInjections_no_nl _ (splitNl_no_nl t))]
+  exact dropInjections_spec _
+
 /-! ### `suppress_main_guard` -/
 
-theorem dropGuards_append (ls : List Line) (xs ys : List (Nat × Nat)) :
+theorem dropGuards_append (ls : List Line) (xs ys : List IfStmt) :
     dropGuards ls (xs ++ ys) = dropGuards (dropGuards ls xs) ys := by
   induction xs generalizing ls with
   | nil => rfl
   | cons x xs ih =>
-    obtain ⟨a, b⟩ := x
     simp only [List.cons_append, dropGuards]
     exact ih _
 
 /-- Deleting the guarded blocks from the last to the first = walking through the source and keeping
 what is outside them. -/
-theorem dropGuards_reverse (ifs : List (Nat × Nat)) : ∀ (pos : Nat) (ls pre : List Line),
+theorem dropGuards_reverse (ifs : List IfStmt) : ∀ (pos : Nat) (ls pre : List Line),
     pre.length = pos → RangesOk pos ls.length ifs →
     dropGuards (pre ++ ls) ifs.reverse = pre ++ keepOutsideGuards pos ls ifs := by
   induction ifs with
   | nil => intro pos ls pre _ _; simp [dropGuards, keepOutsideGuards]
   | cons r rest ih =>
-    obtain ⟨a, b⟩ := r
+    obtain ⟨a, b, g⟩ := r
     intro pos ls pre hpre hok
     obtain ⟨h1, h2, h3, hrest⟩ := hok
+    simp only at h1 h2 h3 hrest
     have hk : b - pos ≤ ls.length := by omega
     have hlen' : (pre ++ ls.take (b - pos)).length = b := by
       simp only [List.length_append, List.length_take, hpre]; omega
@@ -735,38 +810,28 @@ theorem dropGuards_reverse (ifs : List (Nat × Nat)) : ∀ (pos : Nat) (ls pre :
     obtain ⟨K, hK⟩ : ∃ K, K = keepOutsideGuards b (ls.drop (b - pos)) rest := ⟨_, rfl⟩
     rw [← hK] at ihh
     rw [List.reverse_cons, dropGuards_append, ihh]
-    have hidx : (pre ++ ls.take (b - pos) ++ K)[a - 1]? = ls[a - 1 - pos]? := by
-      rw [List.getElem?_append_left (by rw [hlen']; omega),
-        List.getElem?_append_right (by omega), hpre, List.getElem?_take]
-      rw [if_pos (by omega)]
-    have hhead : ((ls.drop (a - 1 - pos)).take (b - (a - 1))).head? = ls[a - 1 - pos]? := by
-      rw [List.head?_take, if_neg (by omega), List.head?_drop]
     have hsplit : ls.take (b - pos) =
         ls.take (a - 1 - pos) ++ (ls.drop (a - 1 - pos)).take (b - (a - 1)) := by
       have : b - pos = (a - 1 - pos) + (b - (a - 1)) := by omega
       rw [this, List.take_add]
-    simp only [dropGuards, keepOutsideGuards, isGuardAt, hidx, hhead]
+    simp only [dropGuards, keepOutsideGuards]
     rw [← hK]
-    cases hg : ls[a - 1 - pos]? with
-    | none =>
-      simp only [Option.map_none, Option.getD_none, Bool.false_eq_true, if_false]
+    cases g with
+    | false =>
+      simp only [Bool.false_eq_true, if_false]
       rw [hsplit]; simp only [List.append_assoc]
-    | some l =>
-      simp only [Option.map_some, Option.getD_some]
-      by_cases hgl : guardLine l = true
-      · simp only [hgl, if_true, List.append_nil]
-        unfold delRange
-        have hA : (pre ++ ls.take (a - 1 - pos)).length = a - 1 := by
-          simp only [List.length_append, List.length_take, hpre]; omega
-        have ht : (pre ++ ls.take (b - pos) ++ K).take (a - 1) = pre ++ ls.take (a - 1 - pos) := by
-          rw [hsplit]
-          have : pre ++ (ls.take (a - 1 - pos) ++ (ls.drop (a - 1 - pos)).take (b - (a - 1))) ++ K =
-              (pre ++ ls.take (a - 1 - pos)) ++ ((ls.drop (a - 1 - pos)).take (b - (a - 1)) ++ K) := by
-            simp only [List.append_assoc]
-          rw [this, List.take_left' hA]
-        rw [ht, List.drop_left' hlen', List.append_assoc]
-      · simp only [hgl, Bool.false_eq_true, if_false]
-        rw [hsplit]; simp only [List.append_assoc]
+    | true =>
+      simp only [if_true, List.append_nil]
+      unfold delRange
+      have hA : (pre ++ ls.take (a - 1 - pos)).length = a - 1 := by
+        simp only [List.length_append, List.length_take, hpre]; omega
+      have ht : (pre ++ ls.take (b - pos) ++ K).take (a - 1) = pre ++ ls.take (a - 1 - pos) := by
+        rw [hsplit]
+        have : pre ++ (ls.take (a - 1 - pos) ++ (ls.drop (a - 1 - pos)).take (b - (a - 1))) ++ K =
+            (pre ++ ls.take (a - 1 - pos)) ++ ((ls.drop (a - 1 - pos)).take (b - (a - 1)) ++ K) := by
+          simp only [List.append_assoc]
+        rw [this, List.take_left' hA]
+      rw [ht, List.drop_left' hlen', List.append_assoc]
 
 /-! ### the end of `full_cleaning`: no blank line -/
 
